@@ -35,6 +35,23 @@ import (
 
 const c18ChainName = "eth-chain1"
 
+// weights of eth.PertKinds (same order); the height-revision perturbation is
+// rare because an accepted one ends the run.
+var c18PertWeights = func() []int {
+	w := make([]int, len(eth.PertKinds))
+	for i, k := range eth.PertKinds {
+		switch k {
+		case eth.PertRevision:
+			w[i] = 1
+		case eth.PertSameRootSister:
+			w[i] = 6
+		default:
+			w[i] = 12
+		}
+	}
+	return w
+}()
+
 func init() {
 	register(&core.Profile{Name: "c18-eth-tree", Property: "C18", Weight: 700, Run: func(c *core.Ctx) { runC18Tree(c, false) },
 		Doc: "one host SimApp chain with an ETH client (seal hook on) fed from a seeded header tree grown from mainnet header 13286181: competing branches interleaved, reorganisations up to depth 8, returns to abandoned branches, field perturbations, duplicates, host clock advances"})
@@ -93,6 +110,7 @@ type c18Run struct {
 
 	tip        common.Hash // hash of ClientState.Header as last observed
 	revHeights map[uint64]bool // numbers at which the client took a header under a non-zero height revision
+	stop       bool            // the client's store is damaged by an already reported defect: end the run
 	everMain   map[common.Hash]bool
 	accepted   int
 	forks      int
@@ -290,6 +308,8 @@ func (r *c18Run) submit(s *eth.Submission, crash world.CrashPoint) {
 			c.Violate("C18/single-chain/nonzero-revision-height",
 				"client accepted header %d/%s submitted under height %d-%d: latest height is now %s and the consensus state exposed at 0-%d is %v (present=%v), not this header's",
 				num, hashStr, s.Rev, num, latest, num, cons, ok)
+			r.stop = true // (known finding) what follows would only show consequences of the hole at 0-number
+			return
 		}
 	}
 	r.checkChain("after-accept")
@@ -301,7 +321,9 @@ func (r *c18Run) submit(s *eth.Submission, crash world.CrashPoint) {
 // checkChain is the single-chain oracle.
 func (r *c18Run) checkChain(when string) {
 	c, n := r.c, r.n
-	csI, ok := n.ClientState(c18ChainName)
+	qctx := n.QueryCtx() // one read-only view of the committed state for the whole walk
+	ck := n.App.TIBCKeeper.ClientKeeper
+	csI, ok := ck.GetClientState(qctx, c18ChainName)
 	if !ok {
 		c.Violate("C18/single-chain/client-state-missing", "%s: no client state for %s", when, c18ChainName)
 		return
@@ -347,7 +369,7 @@ func (r *c18Run) checkChain(when string) {
 		if h == tipNo {
 			pos = "at-tip"
 		}
-		consI, ok := n.ConsensusState(c18ChainName, clienttypes.NewHeight(0, h))
+		consI, ok := ck.GetClientConsensusState(qctx, c18ChainName, clienttypes.NewHeight(0, h))
 		if !ok {
 			c.Violate("C18/single-chain/consensus-state-missing-"+pos,
 				"%s: latest header is %d/%s (revision %d) but no consensus state is exposed at height 0-%d; the chain ending at the latest header has %s there",
@@ -466,13 +488,24 @@ func runC18Tree(c *core.Ctx, crashes bool) {
 	ch := c.Ch
 	hs, err := eth.MainnetHeaders()
 	c.Check(err)
-	root := hs[0]
+	root := eth.CopyHeader(hs[0])
+	lowGas := false
+	if ch.Bool(1, 8) {
+		// the initial header is trusted, not verified: start from a chain whose gas limit sits
+		// at the protocol minimum so that the "at least 5000" rule is reachable on its own
+		root.GasLimit = uint64(5000 + ch.Int(3))
+		root.GasUsed = uint64(ch.Int(int(root.GasLimit) + 1))
+		lowGas = true
+	}
 	base := time.Unix(int64(root.Time)+int64(ch.Range(0, 120)), 0).UTC()
 	r := c18Setup(c, root, base, true)
 	w, n := r.w, r.n
+	if lowGas {
+		w.Stats.Inc("root-at-minimum-gas-limit")
+	}
 
 	steps := 40 + ch.Int(70)
-	for i := 0; i < steps; i++ {
+	for i := 0; i < steps && !r.stop; i++ {
 		c.Step("c18")
 		crash := world.NoCrash
 		op := ch.Pick([]int{28, 14, 8, 18, 3, 24, 6, 5, 6, 2})
@@ -529,7 +562,7 @@ func runC18Tree(c *core.Ctx, crashes bool) {
 				acc := r.acceptedNodes()
 				p = acc[ch.Int(len(acc))]
 			}
-			kind := eth.PertKinds[ch.Int(len(eth.PertKinds))]
+			kind := eth.PertKinds[ch.Pick(c18PertWeights)]
 			h := r.chain.NewChild(ch, p)
 			c.Check(eth.SelfCheck(h, p.H))
 			timeKind := kind == eth.PertTimeFuture || kind == eth.PertTimeBoundary
